@@ -34,6 +34,10 @@ RULE = (
 RULE += (" " + 'Regex field lists include patterns with inline flags and numbered back references.')
 RULE += (" Correlation targets: collections of 1-3 rules with varied log sources and tags plus 1-3 correlation rules (also correlation of correlation, depth <= 3); item with 1-2 rule conditions (logsource, is_sigma_rule, is_sigma_correlation_rule, tag), and/or, negation; expected: a log source condition holds on a correlation rule iff some rule reachable through its references has it; observed on group-by fields.")
 RULE += (" Preceding items may sit inside nested pipelines (a second set_state on the same key inside a nest; all preceding items wrapped in a nest): state, applied ids and field tracking of the nest must be visible to the item under test exactly as if the items were not nested.")
+RULE += (" Map-then-rest cases: a field mapping item (1:1, 1:n, self-keeping 1:n, onto an existing field) followed by the marker item conditioned on the application of that mapping item at field-name or detection-item level (plain / negated, either item inside a nested pipeline), applied to two rules and optionally a correlation rule through one pipeline object; every field name afterwards is compared with the names expected from the mapping alone.")
+RULE += (" Map-chain cases: two field mapping items in a row (the second maps one of the targets of the first, possibly one-to-many) and the marker item conditioned on the application of one of them at detection-item or field-name level: every sibling produced by a one-to-many step carries the history of the item it came from and its own from then on.")
+RULE += (" Split cases: an item renamed by one item and then replaced by several new items (one-to-many mapping, hashes_fields, extract_fields): the replacing items answer detection-item conditions on earlier applications like the item they replace.")
+RULE += (" Post-processing cases: query post-processing items (embed, simple_template, template, json, replace, nest) with rule conditions on the application of the pre-processing item, of earlier post-processing items and of items inside an earlier nest item; the converted query text is compared with the items applied in order under those conditions.")
 ASSUMPTIONS = [
     "an empty condition group holds whatever its linking / negation flag (an item without conditions always applies)",
     "detection items are generated without value modifiers other than fieldref, so value conditions see the source values",
@@ -319,9 +323,445 @@ def check_corr_case(case: dict) -> Outcome:
     return out
 
 
+MAPPINGS = [{"f": "mf"}, {"f": ["mf1", "mf2"]}, {"f": ["f", "mf"]}, {"g": "mg", "f": "mf"}, {"f": "g"}, {"user": ["user", "user_name"], "f": "mf"}]
+
+
+def check_maprest_case(case: dict) -> Outcome:
+    """The everyday idiom 'map the known fields, then treat the rest': a field mapping item (id 'map'), then an
+    item with the marker suffix conditioned on 'processing item map was (not) applied' at field-name or detection-item
+    level.  Two rules (optionally followed by a correlation rule over the first) go through one pipeline object.
+    Observed: every field name in the rules afterwards (items, field references, fields lists, correlation group-by /
+    alias targets / condition field); expected from the mapping alone (tracking is per rule and by name)."""
+    from sigma.collection import SigmaCollection
+    from sigma.exceptions import SigmaError
+    from sigma.processing.pipeline import ProcessingPipeline
+    from sigma.rule import SigmaDetection
+    from sigma.types import SigmaFieldReference
+
+    out = Outcome()
+    out.label("map-then-rest", "level:" + case["level"])
+    mapping, level, neg = case["mapping"], case["level"], case["not"]
+    out.nontrivial = True
+
+    def T(n):
+        t = mapping.get(n)
+        return [n] if t is None else ([t] if isinstance(t, str) else list(t))
+
+    def fired(n):
+        return n in mapping and T(n) != [n]
+
+    def maps_of(doc):
+        res = []
+        for det in doc.get("detection", {}).values():
+            if isinstance(det, str):
+                continue
+            res += [m for m in (det if isinstance(det, list) else [det]) if isinstance(m, dict)]
+        return res
+
+    def expected(doc, reading=True):
+        # names that the mapping item produced in THIS rule (tracking is by name); 'reading': whether an item whose
+        # field references were looked at by the mapping item without any of them (or its field) being renamed counts
+        # as one the mapping item was applied to (the property leaves this open, both readings are accepted)
+        srcs = []
+        for m in maps_of(doc):
+            for k, v in m.items():
+                srcs.append(k.split("|")[0])
+                if "fieldref" in k:
+                    srcs.extend(v if isinstance(v, list) else [v])
+        srcs += list(doc.get("fields", []))
+        c = doc.get("correlation")
+        if c:
+            srcs += list(c.get("group-by", []))
+            srcs += [f for m in c.get("aliases", {}).values() for f in m.values()]
+            if isinstance(c.get("condition"), dict) and c["condition"].get("field"):
+                srcs.append(c["condition"]["field"])
+        tracked = {t for n in srcs if fired(n) for t in T(n)}
+        names = []
+
+        def mark(t, item_applied):
+            if level == "fn":
+                ok = (t in tracked) != neg
+            elif level == "di":
+                ok = item_applied != neg
+            else:
+                ok = True
+            return t + "_M" if ok else t
+
+        for m in maps_of(doc):
+            for k, v in m.items():
+                f = k.split("|")[0]
+                refs = (v if isinstance(v, list) else [v]) if "fieldref" in k else []
+                applied = fired(f) or any(fired(r) for r in refs) or (bool(refs) and reading)
+                names += [mark(t, applied) for t in T(f)]
+                # a 1:n mapping of the item's field repeats the item (and its reference values) per target
+                names += [mark(t, applied) for r in refs for t in T(r)] * len(T(f))
+
+        # fields list / correlation fields: detection-item conditions do not apply to them
+        def mark_list(t):
+            if level == "fn":
+                return t + "_M" if ((t in tracked) != neg) else t
+            return t + "_M"
+
+        names += [mark_list(t) for n in doc.get("fields", []) for t in T(n)]
+        if c:
+            aliases = set(c.get("aliases", {}))
+            for g in c.get("group-by", []):
+                names += [g] if g in aliases else [mark_list(t) for t in T(g)]
+            names += [mark_list(t) for m in c.get("aliases", {}).values() for f in m.values() for t in T(f)]
+            if isinstance(c.get("condition"), dict) and c["condition"].get("field"):
+                names += [mark_list(t) for t in T(c["condition"]["field"])]
+        return sorted(names)
+
+    def observed(rule):
+        names = []
+        if hasattr(rule, "detection"):
+            def walk(d):
+                for it in d.detection_items:
+                    if isinstance(it, SigmaDetection):
+                        walk(it)
+                    else:
+                        if it.field is not None:
+                            names.append(it.field)
+                        names.extend(v.field for v in it.value if isinstance(v, SigmaFieldReference))
+            for d in rule.detection.detections.values():
+                walk(d)
+            names += list(rule.fields)
+        else:
+            names += list(rule.group_by or [])
+            names += [f for a in (rule.aliases or []) for f in a.mapping.values()]
+            cf = getattr(rule.condition, "fieldref", None)
+            if cf:
+                names += [cf] if isinstance(cf, str) else list(cf)
+        return sorted(names)
+
+    map_item = {"id": "map", "type": "field_name_mapping", "mapping": copy.deepcopy(mapping)}
+    test_item = {"id": "test", "type": "field_name_suffix", "suffix": "_M"}
+    if level in ("fn", "di"):
+        key = "field_name" if level == "fn" else "detection_item"
+        test_item[key + "_conditions"] = [{"type": "processing_item_applied", "processing_item_id": "map"}]
+        if neg:
+            test_item[key + "_cond_not"] = True
+    items = [map_item, test_item]
+    if case.get("nest") == "map":
+        items = [{"id": "n1", "type": "nest", "items": [map_item]}, test_item]
+    elif case.get("nest") == "test":
+        items = [map_item, {"id": "n2", "type": "nest", "items": [test_item]}]
+    elif case.get("nest") == "both":
+        items = [{"id": "n3", "type": "nest", "items": [map_item, test_item]}]
+    try:
+        pipeline = ProcessingPipeline.from_dict({"transformations": items})
+        coll = SigmaCollection.from_dicts(copy.deepcopy(case["docs"]))
+        for rule, doc in zip(coll.rules, case["docs"]):
+            pipeline.apply(rule)
+            exp, obs = expected(doc), observed(rule)
+            if exp != obs and level == "di" and obs == expected(doc, False):
+                out.label("unrenamed-references-not-counted-as-applied")
+                continue
+            if exp != obs:
+                kind = "correlation" if "correlation" in doc else "rule"
+                sig = "C13:map-then-rest:%s:%s" % (level, kind)
+                if level == "fn" and not neg:
+                    # recorded finding F-C13-1: the by-name tracking entry moves away with the first renamed occurrence
+                    # of a name, later occurrences of the same name are then seen as untouched.  Exactly that and
+                    # nothing else: names occurring several times may keep the unmarked spelling except once.
+                    rep = {n[:-2] for n in exp if n.endswith("_M") and exp.count(n) > 1}
+                    norm = sorted(n + "_M" if n in rep else n for n in obs)
+                    if rep and norm == exp and all(t + "_M" in obs for t in rep):
+                        sig = "C13:field-applied-tracking-with-repeated-field-name"
+                out.fail(sig,
+                         ("mapping %s level=%s not=%s nest=%s: %s: field names %s, expected %s; docs %s" % (
+                             mapping, level, neg, case.get("nest"), doc.get("title"), obs, exp,
+                             [d.get("detection", d.get("correlation")) for d in case["docs"]]))[:1100])
+                break
+    except SigmaError as e:
+        if "multiple field names" in str(e) or "one-to-many" in str(e).lower():
+            out.skipped = "one-to-many mapping of a correlation field (refused by design)"
+        else:
+            out.fail("C13:map-then-rest:error:" + type(e).__name__, "mapping %s: %s" % (mapping, e))
+    return out
+
+
+M2S = [{"mf1": "mf1x"}, {"mf": "mfx"}, {"mf2": ["a1", "a2"]}, {"g": "gx"}, {"user_name": "un"}, {"mg": ["mg", "mgx"]}, {"h": "hx"}]
+
+
+def _names_in(rule):
+    from sigma.rule import SigmaDetection
+    from sigma.types import SigmaFieldReference
+    items = []
+
+    def walk(d):
+        for it in d.detection_items:
+            if isinstance(it, SigmaDetection):
+                walk(it)
+            else:
+                items.append((it.field, tuple(v.field for v in it.value if isinstance(v, SigmaFieldReference))))
+    for d in rule.detection.detections.values():
+        walk(d)
+    return sorted(items, key=repr), sorted(rule.fields)
+
+
+def check_mapchain_case(case: dict) -> Outcome:
+    """Two field mapping items in a row ('map', then 'm2' which maps one of the first one's targets or an untouched
+    field onwards), then the marker item conditioned on the application of ONE of them at detection-item or field-name
+    level.  A one-to-many step splits an item into siblings: each sibling carries the history of the item it came from
+    and from then on its own."""
+    from sigma.collection import SigmaCollection
+    from sigma.exceptions import SigmaError
+    from sigma.processing.pipeline import ProcessingPipeline
+
+    out = Outcome()
+    level, neg, ref = case["level"], case["not"], case["ref"]
+    out.label("map-chain", "level:" + level, "ref:" + ref)
+    out.nontrivial = True
+    steps = [("map", case["mapping"]), ("m2", case["m2"])]
+
+    def simulate(doc, reading):
+        items = []
+        for det in doc["detection"].values():
+            if isinstance(det, dict):
+                for k, v in det.items():
+                    items.append({"field": k.split("|")[0], "refs": [v] if "fieldref" in k else [], "ids": set()})
+        flist = list(doc.get("fields", []))
+        tr = {}
+        dup = False
+        for X, M in steps:
+            def T(n):
+                t = M.get(n)
+                return [n] if t is None else ([t] if isinstance(t, str) else list(t))
+
+            def fired(n):
+                return n in M and T(n) != [n]
+            allnames = [i["field"] for i in items] + [r for i in items for r in i["refs"]] + flist
+            dup = dup or len(set(allnames)) != len(allnames)
+            new = []
+            for it in items:
+                applied = fired(it["field"]) or any(fired(r) for r in it["refs"]) or (bool(it["refs"]) and reading)
+                refs = [t for r in it["refs"] for t in T(r)]
+                for t in T(it["field"]):
+                    new.append({"field": t, "refs": list(refs), "ids": it["ids"] | ({X} if applied else set())})
+            items = new
+            flist = [t for n in flist for t in T(n)]
+            ntr = dict(tr)
+            for n in set(allnames):
+                if fired(n):
+                    for t in T(n):
+                        ntr[t] = tr.get(n, set()) | {X}
+                    if n not in T(n):
+                        ntr.pop(n, None)
+            tr = ntr
+        allnames = [i["field"] for i in items] + [r for i in items for r in i["refs"]] + flist
+        dup = dup or len(set(allnames)) != len(allnames)
+
+        def mark(t, it):
+            if level == "fn":
+                ok = (ref in tr.get(t, set())) != neg
+            elif level == "di":
+                ok = True if it is None else ((ref in it["ids"]) != neg)
+            else:
+                ok = True
+            return t + "_M" if ok else t
+        exp_items = sorted(((mark(i["field"], i), tuple(mark(r, i) for r in i["refs"])) for i in items), key=repr)
+        return exp_items, sorted(mark(t, None) for t in flist), dup
+
+    items = [{"id": "map", "type": "field_name_mapping", "mapping": copy.deepcopy(case["mapping"])},
+             {"id": "m2", "type": "field_name_mapping", "mapping": copy.deepcopy(case["m2"])}]
+    test_item = {"id": "test", "type": "field_name_suffix", "suffix": "_M"}
+    if level in ("fn", "di"):
+        key = "field_name" if level == "fn" else "detection_item"
+        test_item[key + "_conditions"] = [{"type": "processing_item_applied", "processing_item_id": ref}]
+        if neg:
+            test_item[key + "_cond_not"] = True
+    items.append(test_item)
+    if case.get("nest"):
+        items = [{"id": "n", "type": "nest", "items": items}]
+    try:
+        pipeline = ProcessingPipeline.from_dict({"transformations": items})
+        coll = SigmaCollection.from_dicts(copy.deepcopy(case["docs"]))
+        for rule, doc in zip(coll.rules, case["docs"]):
+            pipeline.apply(rule)
+            obs = _names_in(rule)
+            exps = [simulate(doc, True), simulate(doc, False)]
+            if level == "fn" and exps[0][2]:
+                out.skipped = "field-name tracking with a name occurring several times (recorded finding F-C13-1: excluded by construction)"
+                return out
+            if not any(obs == (e[0], e[1]) for e in exps):
+                out.fail("C13:map-chain:%s" % level,
+                         ("map %s then m2 %s, marker if %s%s applied (%s level), nest=%s: %s: items %s fields %s, expected items %s fields %s; detection %s" % (
+                             case["mapping"], case["m2"], "not " if neg else "", ref, level, case.get("nest"), doc.get("title"),
+                             obs[0], obs[1], exps[0][0], exps[0][1], doc["detection"]))[:1200])
+                break
+    except SigmaError as e:
+        out.fail("C13:map-chain:error:" + type(e).__name__, "mapping %s / %s: %s" % (case["mapping"], case["m2"], e))
+    return out
+
+
+SPLITTERS = {
+    "mapping-one-to-many": ({"type": "field_name_mapping", "mapping": {"mf": ["t1", "t2"]}}, "f", "v", ["t1", "t2"]),
+    "hashes_fields": ({"type": "hashes_fields", "valid_hash_algos": ["MD5", "SHA1"], "field_prefix": "File", "field_to_parse": ["mf"]},
+                      "f|contains", ["MD5=" + "0a" * 16, "SHA1=" + "1b" * 20], ["FileMD5", "FileSHA1"]),
+    "extract_fields": ({"type": "extract_fields", "regex": "(?P<a>[a-z]+)-(?P<b>[a-z]+)",
+                        "field_name_conditions": [{"type": "include_fields", "fields": ["mf"]}]}, "f", "xx-yy", ["a", "b"]),
+}
+
+
+def split_cases():
+    for name in SPLITTERS:
+        for ref in ("map", "split"):
+            for neg in (False, True):
+                for nest in (False, True):
+                    for extra in (False, True):
+                        yield {"kind": "split", "splitter": name, "ref": ref, "not": neg, "nest": nest, "extra": extra}
+
+
+def check_split_case(case: dict) -> Outcome:
+    """An item is renamed by 'map' and then replaced by several new items by 'split' (one-to-many mapping, hashes_fields,
+    extract_fields); the marker is conditioned (detection-item level) on one of the two having been applied.  The items
+    that replace an item are still 'the same detection item' for what was applied to it earlier."""
+    from sigma.collection import SigmaCollection
+    from sigma.exceptions import SigmaError
+    from sigma.processing.pipeline import ProcessingPipeline
+
+    out = Outcome()
+    out.label("split", case["splitter"])
+    out.nontrivial = True
+    spec, key, value, targets = SPLITTERS[case["splitter"]]
+    sel = {key: value, "g": "x"}
+    doc = {"title": "t", "logsource": {"category": "proc"}, "detection": {"sel": sel, "condition": "sel"}}
+    if case["extra"]:
+        doc["detection"]["other"] = {"h": "y"}
+        doc["detection"]["condition"] = "sel and not other"
+    items = [{"id": "map", "type": "field_name_mapping", "mapping": {"f": "mf"}}, dict(copy.deepcopy(spec), id="split"),
+             {"id": "test", "type": "field_name_suffix", "suffix": "_M", "detection_item_cond_not": case["not"],
+              "detection_item_conditions": [{"type": "processing_item_applied", "processing_item_id": case["ref"]}]}]
+    if case["nest"]:
+        items = [{"id": "n", "type": "nest", "items": items}]
+    m = (lambda t, hit: t + "_M" if hit != case["not"] else t)
+    expected = sorted([(m(t, True), ()) for t in targets] + [(m("g", False), ())] + ([(m("h", False), ())] if case["extra"] else []), key=repr)
+    try:
+        rule = SigmaCollection.from_dicts([doc]).rules[0]
+        ProcessingPipeline.from_dict({"transformations": items}).apply(rule)
+        obs = _names_in(rule)[0]
+        if obs != expected:
+            out.fail("C13:split:%s" % case["splitter"], "splitter %s, marker if %s%s applied to the detection item, nest=%s: items %s, expected %s" % (
+                case["splitter"], "not " if case["not"] else "", case["ref"], case["nest"], obs, expected))
+    except SigmaError as e:
+        out.fail("C13:split:error:" + type(e).__name__, "%s: %s" % (case["splitter"], e))
+    return out
+
+
+POST_TYPES = ["embed", "simple_template", "template", "json", "replace", "nest"]
+
+
+def _post_spec(i: int, typ: str) -> dict:
+    import json as _json
+    return {"embed": {"type": "embed", "prefix": "<%d " % i, "suffix": " %d>" % i},
+            "simple_template": {"type": "simple_template", "template": "S%d[{query}]" % i},
+            "template": {"type": "template", "template": "T%d[{{ query }}]" % i},
+            "json": {"type": "json", "json_template": _json.dumps({"q%d" % i: "%QUERY%"})},
+            "replace": {"type": "replace", "pattern": "=", "replacement": "=%d=" % i},
+            "nest": {"type": "nest", "items": [{"id": "in%d" % i, "type": "embed", "prefix": "(n%d " % i, "suffix": ")"}]}}[typ]
+
+
+def _post_model(i: int, typ: str, q: str) -> str:
+    import json as _json
+    return {"embed": lambda: "<%d %s %d>" % (i, q, i), "simple_template": lambda: "S%d[%s]" % (i, q), "template": lambda: "T%d[%s]" % (i, q),
+            "json": lambda: _json.dumps({"q%d" % i: q}), "replace": lambda: q.replace("=", "=%d=" % i), "nest": lambda: "(n%d %s)" % (i, q)}[typ]()
+
+
+@st.composite
+def post_cases(draw):
+    n = draw(st.integers(2, 4))
+    items = []
+    ids = ["pre0", "zz"]
+    for i in range(n):
+        typ = draw(st.sampled_from(POST_TYPES))
+        conds = []
+        for _ in range(draw(st.sampled_from([0, 1, 1, 1, 2]))):
+            if draw(st.integers(0, 3)) == 0:
+                conds.append({"type": "logsource", "category": draw(st.sampled_from(["proc", "net"]))})
+            else:
+                # mostly the item directly before (the common 'if the previous step ran' idiom)
+                ref = ids[-1] if draw(st.booleans()) else draw(st.sampled_from(ids))
+                conds.append({"type": "processing_item_applied", "processing_item_id": ref})
+        items.append({"typ": typ, "conds": conds, "op": draw(st.sampled_from(["and", "or"])), "not": draw(st.booleans())})
+        ids.append("p%d" % i)
+        if typ == "nest":
+            ids.append("in%d" % i)
+    return {"kind": "post", "items": items, "two_conditions": draw(st.booleans())}
+
+
+def check_post_case(case: dict) -> Outcome:
+    """Query post-processing items whose rule conditions refer to earlier items (pre-processing item 'pre0', earlier
+    post-processing items, items inside an earlier nest item, a never applied id) and to the log source; two rules with
+    different log sources, optionally two conditions (two queries) per rule.  Expected query text: the items applied in
+    order, each if and only if its conditions hold on what was applied to this rule before it."""
+    from sigma.backends.test import TextQueryTestBackend
+    from sigma.collection import SigmaCollection
+    from sigma.exceptions import SigmaError
+    from sigma.processing.pipeline import ProcessingPipeline
+
+    out = Outcome()
+    out.nontrivial = any(c["type"] == "processing_item_applied" for it in case["items"] for c in it["conds"])
+    out.label("post-processing", *("type:" + it["typ"] for it in case["items"]))
+    docs = []
+    for cat in ("proc", "net"):
+        det = {"sel": {"f": "v"}, "condition": "sel"}
+        if case["two_conditions"]:
+            det["sel2"] = {"g": "w"}
+            det["condition"] = ["sel", "sel2"]
+        docs.append({"title": "rule " + cat, "logsource": {"category": cat}, "detection": det})
+    pd = {"transformations": [{"id": "pre0", "type": "field_name_suffix", "suffix": "_x", "rule_conditions": [{"type": "logsource", "category": "proc"}]}],
+          "postprocessing": []}
+    for i, it in enumerate(case["items"]):
+        d = dict(_post_spec(i, it["typ"]), id="p%d" % i)
+        if it["conds"]:
+            d["rule_conditions"] = copy.deepcopy(it["conds"])
+            d["rule_cond_op"] = it["op"]
+        if it["not"]:
+            d["rule_cond_not"] = True
+        pd["postprocessing"].append(d)
+    expected = []
+    for cat in ("proc", "net"):
+        applied = {"pre0"} if cat == "proc" else set()
+        sfx = "_x" if cat == "proc" else ""
+        for q in (['f%s="v"' % sfx, 'g%s="w"' % sfx] if case["two_conditions"] else ['f%s="v"' % sfx]):
+            for i, it in enumerate(case["items"]):
+                vals = [(c["processing_item_id"] in applied) if c["type"] == "processing_item_applied" else (c["category"] == cat) for c in it["conds"]]
+                if it["conds"]:
+                    res = all(vals) if it["op"] == "and" else any(vals)
+                    hit = (not res) if it["not"] else res
+                else:
+                    hit = True      # an item without conditions always applies
+                if hit:
+                    q = _post_model(i, it["typ"], q)
+                    applied.add("p%d" % i)
+                    if it["typ"] == "nest":
+                        applied.add("in%d" % i)
+            expected.append(q)
+    try:
+        backend = TextQueryTestBackend(ProcessingPipeline.from_dict(pd))
+        obs = backend.convert(SigmaCollection.from_dicts(docs))
+    except SigmaError as e:
+        out.fail("C13:post-processing:error:" + type(e).__name__, "%s: %s" % (pd["postprocessing"], e))
+        return out
+    if obs != expected:
+        k = next(i for i in range(max(len(obs), len(expected))) if i >= len(obs) or i >= len(expected) or obs[i] != expected[i])
+        out.fail("C13:post-processing:conditions", ("post-processing items %s: query %d is %r, expected %r" % (
+            pd["postprocessing"], k, obs[k] if k < len(obs) else None, expected[k] if k < len(expected) else None))[:1200])
+    return out
+
+
 def check_case(case: dict) -> Outcome:
+    if case.get("kind") == "post":
+        return check_post_case(case)
+    if case.get("kind") == "split":
+        return check_split_case(case)
+    if case.get("kind") == "mapchain":
+        return check_mapchain_case(case)
     if case.get("kind") == "corr":
         return check_corr_case(case)
+    if case.get("kind") == "maprest":
+        return check_maprest_case(case)
     from sigma.exceptions import SigmaError
     from sigma.processing.pipeline import ProcessingPipeline
     from sigma.rule import SigmaDetection, SigmaRule
@@ -581,6 +1021,65 @@ def corr_cases(draw):
     return {"kind": "corr", "docs": docs, "conds": draw(st.lists(cond, min_size=1, max_size=2)), "op": draw(st.sampled_from(["and", "or"])), "not": draw(st.booleans())}
 
 
+@st.composite
+def maprest_cases(draw):
+    pool = ["f", "g", "h", "user", "mf", "mg", "zz"]
+
+    def rule(i):
+        sel = {}
+        for _ in range(draw(st.integers(1, 3))):
+            f = draw(st.sampled_from(pool))
+            if draw(st.integers(0, 4)) == 0:
+                sel[f + "|fieldref"] = draw(st.sampled_from(pool))
+            else:
+                sel[f + draw(st.sampled_from(["", "", "|contains"]))] = "v%d" % i
+        det = {"sel": sel, "condition": "sel"}
+        if draw(st.booleans()):
+            det["other"] = {draw(st.sampled_from(pool)): i}
+            det["condition"] = "sel and not other"
+        d = {"title": "rule%d" % i, "name": "r%d" % i, "logsource": {"category": "proc"}, "detection": det}
+        if draw(st.booleans()):
+            d["fields"] = draw(st.lists(st.sampled_from(pool), min_size=1, max_size=3, unique=True))
+        return d
+
+    docs = [rule(0), rule(1)]
+    if draw(st.integers(0, 2)) == 0:
+        c = {"type": "value_count", "rules": ["r0"], "timespan": "5m",
+             "group-by": draw(st.lists(st.sampled_from(pool + ["al"]), min_size=1, max_size=3, unique=True)),
+             "condition": {"gte": 2, "field": draw(st.sampled_from(pool))}}
+        if "al" in c["group-by"]:
+            c["aliases"] = {"al": {"r0": draw(st.sampled_from(pool))}}
+        docs.append({"title": "corr", "correlation": c})
+    return {"kind": "maprest", "docs": docs, "mapping": draw(st.sampled_from(MAPPINGS)), "level": draw(st.sampled_from(["fn", "fn", "di", "none"])),
+            "not": draw(st.booleans()), "nest": draw(st.sampled_from([None, None, "map", "test", "both"]))}
+
+
+@st.composite
+def mapchain_cases(draw):
+    pool = ["f", "g", "h", "user", "mf", "mg", "zz"]
+
+    def rule(i):
+        sel = {}
+        for _ in range(draw(st.integers(1, 3))):
+            f = draw(st.sampled_from(pool))
+            if draw(st.integers(0, 5)) == 0:
+                sel[f + "|fieldref"] = draw(st.sampled_from(pool))
+            else:
+                sel[f + draw(st.sampled_from(["", "", "|contains", "|endswith"]))] = "v%d" % i
+        det = {"sel": sel, "condition": "sel"}
+        if draw(st.booleans()):
+            det["other"] = {draw(st.sampled_from(pool)): i}
+            det["condition"] = "sel and not other"
+        d = {"title": "rule%d" % i, "logsource": {"category": "proc"}, "detection": det}
+        if draw(st.integers(0, 2)) == 0:
+            d["fields"] = draw(st.lists(st.sampled_from(pool), min_size=1, max_size=2, unique=True))
+        return d
+
+    return {"kind": "mapchain", "docs": [rule(0), rule(1)], "mapping": draw(st.sampled_from(MAPPINGS)), "m2": draw(st.sampled_from(M2S)),
+            "ref": draw(st.sampled_from(["map", "m2", "m2"])), "level": draw(st.sampled_from(["di", "di", "fn", "none"])),
+            "not": draw(st.booleans()), "nest": draw(st.sampled_from([False, False, True]))}
+
+
 def sweep_cases():
     """Deterministic sweep: every tracking / state condition at every group level x preceding items plain or
     inside nested pipelines x the item under test plain or nested."""
@@ -605,9 +1104,12 @@ def sweep_cases():
 
 def run(ctx) -> None:
     i = 0
-    for c in sweep_cases():
+    for c in list(sweep_cases()) + list(split_cases()):
         i += 1
         if i % ctx.nshards == ctx.shard:
             ctx.do(c)
     ctx.hyp(cases(), 1500 if ctx.tier == "quick" else 20000)
     ctx.hyp(corr_cases(), 300 if ctx.tier == "quick" else 4000, salt=2)
+    ctx.hyp(maprest_cases(), 1200 if ctx.tier == "quick" else 15000, salt=3)
+    ctx.hyp(post_cases(), 1000 if ctx.tier == "quick" else 12000, salt=5)
+    ctx.hyp(mapchain_cases(), 1200 if ctx.tier == "quick" else 15000, salt=4)
